@@ -112,7 +112,7 @@ theorem planState_planFlags (diff : Differ) (a b : Vsys) (hbg : b.groups = []) (
       ((sortVsys a).groups.length + (sortVsys b).groups.length + (sortVsys b).sgroups.length + 1) + 1 := rfl
   rw [hfuel]
   generalize (sortVsys a).groups.length + (sortVsys b).groups.length + (sortVsys b).sgroups.length + 1 = fuel
-  generalize hnames : uniqNames ((sortVsys a).groups.map (·.name)) ((sortVsys b).groups.map (·.name)) = names
+  generalize hnames : groupNamesFor (sortVsys a) (sortVsys b) = names
   generalize hbr : ((sortVsys b).rules.zip (uniqNames (ruleNames (sortVsys a).rules)
     (ruleNames (sortVsys b).rules))).map (fun (r, n) => { r with name := n }) = bRules
   have hobjs := diffRules_objs diff (fuel + 1)
